@@ -29,6 +29,7 @@ left - right); x / v / c / p / u / y hold exactly the variables the flat model c
 (and time) are distinct symbols and distinct Python identifiers.
 """
 import ast as pyast
+import gc
 import itertools
 import math
 import sys
@@ -1186,6 +1187,7 @@ def _blame(devs, sig, seed, npoints):
 
 def _init():
     install_runtime()
+    gc.freeze()  # what was inherited from the parent (sympy, the parser's tables, the case lists) never becomes garbage
 
 
 def run(ctx):
@@ -1213,12 +1215,17 @@ def run(ctx):
     # warm the parent before the workers fork (ANTLR's lazily built DFA, jinja2, sympy caches are inherited)
     judge(names_model({}), ctx.seed, 1)
     judge(expr_model(packs[0]), ctx.seed, 1)
+    # every full collection in a forked worker would walk (and copy, page by page) the whole inherited heap: sympy alone
+    # is some million objects, and the generator + sympy allocate enough to trigger collections all the time
+    gc.collect()
+    gc.freeze()
     with common.Pool(init=_init) as pool_:
         re_ = pool_.map(job_expr, [(p, ctx.seed, npoints, "expr") for p in packs], chunksize=4)
         rl = pool_.map(job_expr, [(p, ctx.seed, npoints, "lit") for p in lpacks], chunksize=4)
         rn = pool_.map(job_names, [(r, ctx.seed, npoints) for r in ncases], chunksize=8)
         rm = pool_.map(job_mangle, [(c, ctx.seed, npoints) for c in mcases], chunksize=8)
         rs = pool_.map(job_struct, [(d, ctx.seed, npoints) for d in scases], chunksize=4)
+    gc.unfreeze()
     for r in re_ + rl + rn + rm + rs:
         for sig, msg, case in r["viol"]:
             ctx.violation(sig, msg, case)
